@@ -419,6 +419,22 @@ def run(ctx, broken):
         cc.append({"src": a_src + " || " + a_src, "cmd": "prog2", "expect": "sat", "rv": None,
                    "tags": ["copy-constraint", "copy-long-class-honest"]})
     r.run(cc, cmd="prog2")
+    # CONSTANT residual: an exactly full domain (no padding row) on which EVERY row — the four rows of Composer::initialized
+    # included — misses its identity by the same constant d, all copy constraints intact: the numerator is d modulo the
+    # vanishing polynomial, the smallest possible remainder (degree 0), i.e. the boundary case of the `len > 7n` detection rule
+    const_res = []
+    for total in ((8, 16) if ctx.tier == "quick" else (8, 16, 32, 64)):
+        for dlt in (1, 5, R - 1, rng.fe()):
+            p = Prog(); p.tags = ["constant-residual-full-domain", "gates=%d" % total]
+            for _ in range(total - 4):
+                k = rng.fe()
+                w_ = p.w((k - dlt) % R); p.aeqc(w_, k)
+            # witnesses of Composer::initialized: #0 zero, #1 one, #2 six, #3 one (dummy), #4 seven, #5 minus twenty
+            p.op("setw #0 %s" % hx((-dlt) % R)); p.op("setw #1 %s" % hx((1 - dlt) % R))
+            p.op("setw #4 %s" % hx((7 + dlt) % R)); p.op("setw #3 %s" % hx((1 - 8 * dlt) % R))
+            p.unsat()
+            const_res.append(p.case())
+    r.run(const_res)
     st = r.report(broken)
     st["rule"] = ("programs = 1-4 ordinary components + one raw row of each widget family (range/logic/variable-base/fixed-base/"
                   "arithmetic+PI, selector values 1,-1,other) with a satisfying assignment or one violating exactly one identity "
@@ -427,7 +443,7 @@ def run(ctx, broken):
                   "component against the arithmetic identity (exactly two non-zero components that sum to zero: rejected only "
                   "because the components carry independent challenge weights); raw rows with arbitrary mixed selectors; a selected row on the last row "
                   "of a full domain (gates = 2^k, wrap-around to row 0) and at 2^k+-1; copy constraints: keys compiled from A, "
-                  "instance B re-wires one position (equal / different value); LONG copy classes (one witness in 70 slots over all four columns; instance B feeds the slots after every split position k, alternating slots, a random subset or a single slot from a second witness with another value: only the copy constraints can reject it); constraint-count mismatch. Outcome of the real "
+                  "instance B re-wires one position (equal / different value); LONG copy classes (one witness in 70 slots over all four columns; instance B feeds the slots after every split position k, alternating slots, a random subset or a single slot from a second witness with another value: only the copy constraints can reject it); constraint-count mismatch; a CONSTANT residual on every row of an exactly full domain (remainder of degree 0: the boundary of the len > 7n rule). Outcome of the real "
                   "prove+verify vs the model's proveOutcome (row identities on the padded domain, cyclic next row, copy classes, size).")
     return st
 
